@@ -1,8 +1,11 @@
 """C03 — descriptors do not depend on how the molecule is written.
 
-Proof: lean/PGA/Props/C03.lean — the decomposition above the matcher is invariant under any renumbering of the atoms
-(match lists transported as *sets*, neighbour lists as multisets), for every size; Benson ring perception part is
-`_partial` (ring-order dependence on fused rings is a recorded finding, F3).
+Proof: lean/PGA/Props/C03.lean — (above the matcher) the decomposition is invariant under any renumbering of the atoms
+(match lists transported as *sets*, neighbour lists as multisets), for every size; (perception) the Benson model
+`aromatizeBenson` is invariant under rotation/reflection of every ring's atom list, under the ORDER of the ring list when
+no two eligible rings share a bond (`_partial`; the full statement is refuted in Lean on 1-methylnaphthalene = finding F3),
+and commutes with a renumbering; (end to end) every predicate of `Spec.Embeds` is transported by a renumbering of the graph
+and `decompose S` gives the same result on a renumbered graph (`C03_decompose_relabel`).
 Oracle (relational): the implementation compared with itself on equivalent inputs.  Tie: the model run on each
 spelling's own graph against the implementation on that spelling.
 """
@@ -212,12 +215,15 @@ def replay(ctx, rec):
     return len(ctx.violations) + sum(k['count'] for k in ctx.known_seen.values()) == before
 
 
-LEVEL_TEXT = ('Lean 4 theorem: for every renumbering of the atoms (any permutation, any molecule size) with the match lists transported '
-              'as sets and the neighbour lists as multisets, the model decomposition returns the same count for every name and fails '
-              'in the same cases — proved through the declarative characterisation (C02), C19 (canonical names ignore order) and '
-              'cardinality-preservation lemmas. That matches of a relabelled graph are the relabelled matches is C08. The implementation '
-              'is compared with itself on equivalent spellings (relational oracle). Ring-order dependence of Benson perception on fused C6 rings is a known finding (F3).')
+LEVEL_TEXT = ('Lean 4 theorems: for every renumbering of the atoms of a graph (any bijection, any size; bonds listed in any order, rings in the same order) '
+              'the end-to-end model decompose (Benson perception, reader, matcher, decomposition) returns the same count for every name and fails in the same '
+              'cases (C03_decompose_relabel) — through: every atom/bond/constraint/stereo/molecule predicate of the embedding relation is invariant '
+              '(C03_embeds_relabel), the perception commutes with the renumbering (C03_aromatize_relabel), the decomposition above the matcher depends on '
+              'match sets and neighbour multisets only (C03_descriptors_relabel, C19). The perception is invariant under rotation/reflection of ring atom lists '
+              'and under the order of the ring list when no two eligible rings share a bond (C03_aromatize_order_partial). The implementation is compared with '
+              'itself on equivalent spellings (relational oracle), with the end-to-end model on every spelling\'s own graph, and its perception with the model directly.')
 LEVEL_NOTE = ('Trusted: Lean kernel, standard axioms, RDKit for producing equivalent spellings and graphs (A-graph). Partial: invariance of the '
-              'Benson aromatic perception under ring ORDER is false of the code for fused rings (F3, recorded); rotation/reflection of a ring and '
-              'renumbering are covered.')
+              'Benson aromatic perception under ring ORDER is false of the code for fused rings (F3, recorded; refuted in Lean at the 1-methylnaphthalene graph); '
+              'rotation/reflection of a ring, ring order for bond-disjoint eligible rings, and renumbering are proved. Hypotheses of the end-to-end theorem: well-formed '
+              'graph, no `*` (FM1), candidate counts below the cap (F30), chain-free remaps.')
 TECHNIQUE = 'Lean 4 proof (relabelling invariance of the decomposition model) + relational differential run of the implementation on equivalent inputs'
